@@ -347,7 +347,17 @@ func devirtBoundCalls(fn *ssa.Function) bool {
 			}
 			for _, win := range w.Blocks[0].Instrs {
 				inner, ok := win.(*ssa.Call)
-				if !ok || inner.Call.IsInvoke() {
+				if !ok {
+					continue
+				}
+				if inner.Call.IsInvoke() {
+					// a method value of an interface (`eh.Wrap`): the call invokes the method
+					if inner.Call.Value == ssa.Value(w.FreeVars[0]) && len(inner.Call.Args) == len(call.Call.Args) {
+						call.Call.Value = mc.Bindings[0]
+						call.Call.Method = inner.Call.Method
+						changed = true
+						break
+					}
 					continue
 				}
 				target := inner.Call.StaticCallee()
@@ -406,12 +416,13 @@ func (p *Prog) Normalise(known map[string]bool, keep func(*ssa.Function) bool) (
 		}
 		state[fn] = 1
 		NormaliseBufferEncodes(fn)
+		NormaliseJoinLoops(fn)
 		nLoops, nMaps, nSpec, fwd := 0, 0, 0, false
 		for round := 0; round < 6; round++ {
 			changed := false
 			for again, guard := true, 0; again && guard < 200; guard++ {
 				again = false
-				if inlinedInto[fn] {
+				if inlinedInto[fn] || nLoops > 0 || nMaps > 0 || nSpec > 0 {
 					devirtBoundCalls(fn)
 				}
 				stripNamedFuncCalls(fn)
